@@ -349,9 +349,43 @@ where
     let known: Vec<String> = report.known.iter().map(|k| k.signature.clone()).collect();
     let stop = AtomicBool::new(false);
     let results: Mutex<Vec<(usize, Stats, Option<(T, Fail)>)>> = Mutex::new(Vec::new());
+    // watchdog: the case each shard is currently evaluating, with its start time
+    let slots: Vec<Mutex<Option<(Instant, T)>>> = (0..shards).map(|_| Mutex::new(None)).collect();
+    let all_done = AtomicBool::new(false);
+    let live = std::sync::atomic::AtomicUsize::new(shards);
 
     std::thread::scope(|scope| {
+        {
+            let slots = &slots;
+            let all_done = &all_done;
+            let id = ctx.id.clone();
+            let tier = ctx.tier;
+            let name = spec.name;
+            scope.spawn(move || {
+                let stall = std::time::Duration::from_secs(
+                    std::env::var("VERIF_STALL_SECS").ok().and_then(|s| s.parse().ok()).unwrap_or(60),
+                );
+                while !all_done.load(Ordering::Relaxed) {
+                    std::thread::sleep(std::time::Duration::from_millis(250));
+                    for slot in slots {
+                        let stalled = {
+                            let g = slot.lock().unwrap();
+                            match &*g {
+                                Some((since, v)) if since.elapsed() > stall => Some(v.clone()),
+                                _ => None,
+                            }
+                        };
+                        if let Some(v) = stalled {
+                            handle_stall(&id, tier, name, serde_json::to_value(&v).unwrap_or(Value::Null), stall.as_secs());
+                        }
+                    }
+                }
+            });
+        }
         for shard in 0..shards {
+            let slot = &slots[shard];
+            let all_done = &all_done;
+            let live = &live;
             let mk = &mk;
             let oracle = &oracle;
             let known = &known;
@@ -382,6 +416,7 @@ where
                             return Ok(());
                         }
                         let mut st = stats.borrow_mut();
+                        *slot.lock().unwrap() = Some((Instant::now(), v.clone()));
                         let verdict = match catch(|| oracle(&v, &mut st)) {
                             Ok(r) => r,
                             Err(p) => Err(Fail::new(
@@ -389,6 +424,7 @@ where
                                 format!("oracle panicked outside a guarded call: {p}"),
                             )),
                         };
+                        *slot.lock().unwrap() = None;
                         match verdict {
                             Ok(()) => Ok(()),
                             Err(f) => {
@@ -435,6 +471,9 @@ where
                     let mut st = stats.into_inner();
                     st.frozen = false;
                     results.lock().unwrap().push((shard, st, failure));
+                    if live.fetch_sub(1, Ordering::SeqCst) == 1 {
+                        all_done.store(true, Ordering::SeqCst);
+                    }
                 })
                 .expect("spawn shard");
         }
@@ -464,6 +503,60 @@ where
             case: serde_json::to_value(&value).unwrap_or(Value::Null),
             fail: f,
         });
+    }
+}
+
+/// Called by the watchdog when one case has been running for `secs` seconds.
+/// The case is saved as a replay file and re-run in a fresh process with a
+/// generous limit.  Only for the properties whose statement includes
+/// termination (C14, C24) a stall that reproduces there is reported as a
+/// violation; everything else — and a stall that does not reproduce — is an
+/// infrastructure failure (exit 2), never a violation.
+fn handle_stall(id: &str, tier: Tier, check: &str, case: Value, secs: u64) -> ! {
+    let body = json!({
+        "property": id,
+        "check": check,
+        "case": case,
+        "signature": "non-termination",
+        "diagnosis": format!("one case did not finish within {secs} s"),
+        "tier": tier.as_str(),
+    });
+    let dir = format!("{VERIF_ROOT}/replays");
+    let _ = std::fs::create_dir_all(&dir);
+    let path = format!("{dir}/{id}-stall-{:016x}.json", fnv64(body.to_string().as_bytes()));
+    let _ = std::fs::write(&path, serde_json::to_string_pretty(&body).unwrap());
+    eprintln!("WATCHDOG: a case of sub-check {check} has been running for more than {secs} s; saved as {path}; re-running it in a fresh process");
+    let exe = std::env::current_exe().unwrap();
+    let mut child = match std::process::Command::new(exe).args([id, "quick", "--replay", &path]).spawn() {
+        Ok(c) => c,
+        Err(e) => {
+            eprintln!("INFRA: cannot re-run the stalled case: {e}");
+            std::process::exit(2);
+        }
+    };
+    let deadline = Instant::now() + std::time::Duration::from_secs(3 * secs.max(20));
+    loop {
+        match child.try_wait() {
+            Ok(Some(_)) => {
+                eprintln!("INFRA: the stalled case finished when re-run alone; the stall is attributed to the environment");
+                std::process::exit(2);
+            }
+            Ok(None) if Instant::now() > deadline => {
+                let _ = child.kill();
+                if id == "C14" || id == "C24" {
+                    println!("VIOLATION property={id} replay={path}");
+                    eprintln!("the case does not terminate when re-run alone either: non-termination");
+                    std::process::exit(1);
+                }
+                eprintln!("INFRA: the case stalls again when re-run alone (property {id} does not cover termination)");
+                std::process::exit(2);
+            }
+            Ok(None) => std::thread::sleep(std::time::Duration::from_millis(200)),
+            Err(e) => {
+                eprintln!("INFRA: waiting for the re-run failed: {e}");
+                std::process::exit(2);
+            }
+        }
     }
 }
 
